@@ -100,7 +100,10 @@ EVALUATORS = {"lru": eval_lru}
 
 def _host_strategy():
     return st.one_of(G.hosts(), G.hosts(), G.hosts(tlds=["co.uk", "com", "kawasaki.jp", "x.kawasaki.jp", "blogspot.com", "unknowntld"]),
-                     st.sampled_from(IPV6), st.sampled_from(IPV4), st.sampled_from(["localhost", "LOCALHOST"]))
+                     st.sampled_from(IPV6), st.sampled_from(IPV4), st.sampled_from(["localhost", "LOCALHOST"]),
+                     # inner labels that begin with the text of the public suffix; all-digit labels
+                     G.hosts(idn=False, labels=["company", "community", "network", "organic", "couk", "co", "uk", "1", "42", "0", "shop"],
+                             tlds=["com", "net", "org", "co.uk", "uk"]))
 
 
 def _strategy(tier):
